@@ -135,8 +135,8 @@ func (r *Ref) Offer(d *Desc, s Sym, val int32) bool {
 	if s.Action == "" || val != 1 {
 		return true
 	}
-	if r.pairHeld() {
-		return false // no third action while a complete pair is held
+	if r.pairHeld() && s.Action != "panic" {
+		return false // no third action while a complete pair is held (C04's side condition); panic may be injected at every point (C13)
 	}
 	p := partner(s.Action)
 	if p != "" && r.HeldAct&actionBits[p] != 0 {
